@@ -1,0 +1,200 @@
+//go:build verif
+
+// Contracts for package cache, checked by /verif/gvc (comment-only file,
+// compiled only under the build tag "verif").
+package cache
+
+// The clock is a package variable holding a function. nowval is "the clock
+// reading during this call" (one arbitrary instant per call).
+//@ ghost nowval int
+//@ func global Now
+//@   ensures tinst(res0) == nowval
+
+// A target is well formed when the objects it owns exist.
+//@ pred TargetWf(t *Target) := t != nil && t.t != nil && t.meta != nil && t.lat != nil && t.client != nil && Now != nil
+
+// The built-in counters are registered (package metadata's registries are
+// filled at init time and are not edited afterwards).
+//@ pred CountersRegistered() := RegisteredInt("targetLeaves") && RegisteredInt("targetLeavesAdded") && RegisteredInt("targetLeavesDeleted")
+//@   && RegisteredInt("targetLeavesStale") && RegisteredInt("targetLeavesFuture") && RegisteredInt("targetLeavesSuppressed")
+//@   && RegisteredInt("targetLeavesUpdated") && RegisteredInt("targetLeavesEmpty")
+
+// What protobuf decoding guarantees for a message received from a peer:
+// repeated fields hold no nil element, a set oneof holds a non-nil wrapper.
+// Singular message fields (Prefix, Path, Val) may be nil.
+//@ pred UpdateWf(u *pb.Update) := u != nil && (u.Val != nil && u.Val.Value != nil ==> payload(u.Val.Value) != nil)
+//@ pred NotiWf(n *pb.Notification) := n != nil && allocated(n.Update) && allocated(n.Delete)
+//@   && (forall i int :: 0 <= i && i < len(n.Update) ==> UpdateWf(n.Update[i]))
+//@   && (forall i int :: 0 <= i && i < len(n.Delete) ==> n.Delete[i] != nil)
+
+// Every value stored in a target's tree is a well-formed notification with at
+// least one update (gnmiUpdate is the only writer and stores only such values).
+//@ pred LeafVal(l ref) := heapsel("ctree.Tree.leafBranch", l)
+//@ pred StoredWf(t *Target) := forall k PKey :: tstore[t.t][k] != nil ==>
+//@   isa(LeafVal(tstore[t.t][k]).(*pb.Notification)) && NotiWf(LeafVal(tstore[t.t][k]).(*pb.Notification))
+//@   && len(LeafVal(tstore[t.t][k]).(*pb.Notification).Update) >= 1
+
+// Index path of the leaf a notification addresses (atomic: the prefix only).
+//@ pred Suffix(n *pb.Notification) := ite(n.Atomic, nil, n.Update[0].Path)
+//@ pred JP(n *pb.Notification) := sub(idxpath(n.Prefix, true) ++ idxpath(Suffix(n), false), 1, len(idxpath(n.Prefix, true)) + len(idxpath(Suffix(n), false)))
+//@ pred L0(t *Target, n *pb.Notification) := tstore[t.t][pkey(JP(n))]
+//@ pred Stored(t *Target, n *pb.Notification) := LeafVal(L0(t, n)).(*pb.Notification)
+// Real(n): n addresses target data, not the collector's own metadata subtree
+// (metadata updates are additionally type-checked before the timestamp discipline applies).
+//@ pred Real(n *pb.Notification) := len(JP(n)) >= 1 && first(JP(n)) != "meta"
+//@ pred TreeSame() := tstore == old(tstore) && treal == old(treal)
+//@   && (forall r ref :: heapsel("ctree.Tree.leafBranch", r) == old(heapsel("ctree.Tree.leafBranch", r)))
+//@ pred Added(t *Target, name string) := intAdded[t.meta][name] - old(intAdded[t.meta][name])
+// time.Time.Sub saturates at the int64 range.
+//@ pred Sat64(x int) := ite(x > 9223372036854775807, 9223372036854775807, ite(x < 0 - 9223372036854775808, 0 - 9223372036854775808, x))
+//@ pred TooFarAhead(t *Target, n *pb.Notification) := t.futureThreshold > 0 && Sat64(n.Timestamp - nowval) > t.futureThreshold
+//@   && wrap64s(tinst(t.ts)) > 0 && Sat64(n.Timestamp - tinst(t.ts)) > t.futureThreshold
+
+//@ func joinPrefixAndPath
+//@   props C02 C03 C12 C19
+//@   requires pr != nil && pr.Target != ""
+//@   ensures view(res0) == sub(idxpath(pr, true) ++ idxpath(ph, false), 1, len(idxpath(pr, true)) + len(idxpath(ph, false)))
+//@   ensures res0 != nil && fresh(res0)
+
+//@ func (*Target).gnmiUpdate
+//@   props C02 C03 C12 C15
+//@   requires TargetWf(t) && NotiWf(n) && len(n.Update) >= 1 && n.Prefix != nil && n.Prefix.Target != "" && StoredWf(t) && CountersRegistered()
+//@   modifies ghost tstore, ghost treal, ghost intAdded, heap(ctree.Tree.leafBranch), t.sync
+//@   effect owed := ite(res0 != nil, owed ++ unit(res0), owed)
+//@   effect updSteps := updSteps + 1
+//@   ensures [rejected-changes-nothing] res1 != nil ==> res0 == nil && TreeSame()
+//@   ensures [stale-older C02] Real(n) && old(L0(t, n)) != nil && n.Timestamp < old(Stored(t, n).Timestamp) ==> res1 == ErrStale
+//@   ensures [stale-identical C02] Real(n) && old(L0(t, n)) != nil && n.Timestamp == old(Stored(t, n).Timestamp) && old(protoEq(box(Stored(t, n)), box(n))) ==> res1 == ErrStale
+//@   ensures [same-timestamp-replaces C02] Real(n) && old(L0(t, n)) != nil && n.Timestamp == old(Stored(t, n).Timestamp) && !old(protoEq(box(Stored(t, n)), box(n)))
+//@     ==> res1 == nil && LeafVal(old(L0(t, n))) == box(n) && tstore == old(tstore)
+//@   ensures [future-rejected C02] Real(n) && old(L0(t, n)) != nil && n.Timestamp > old(Stored(t, n).Timestamp) && TooFarAhead(t, n) ==> res1 == ErrFuture
+//@   ensures [newer-accepted C02] Real(n) && old(L0(t, n)) != nil && n.Timestamp > old(Stored(t, n).Timestamp) && !TooFarAhead(t, n)
+//@     ==> res1 == nil && LeafVal(old(L0(t, n))) == box(n) && tstore == old(tstore)
+//@   ensures [new-leaf C02 C03] old(L0(t, n)) == nil && res1 == nil ==> L0(t, n) != nil && fresh(L0(t, n)) && LeafVal(L0(t, n)) == box(n)
+//@     && (forall k PKey :: k != pkey(JP(n)) ==> tstore[t.t][k] == old(tstore[t.t][k]))
+//@   ensures [other-leaves-kept] forall r ref :: r != L0(t, n) ==> LeafVal(r) == old(LeafVal(r))
+//@   ensures [other-trees-kept] forall u ref :: u != t.t ==> tstore[u] == old(tstore[u]) && treal[u] == old(treal[u])
+//@   ensures [stored-wf] StoredWf(t)
+// C03: the change feed. A leaf is returned (to be announced) iff the tree changed and the change is not suppressed;
+// suppression happens only with event-driven emulation on, for a non-atomic update whose value equals the stored one.
+//@   ensures [announce-the-changed-leaf C03] res0 != nil ==> res1 == nil && res0 == L0(t, n) && LeafVal(res0) == box(n)
+//@   ensures [withheld-only-when-unchanged C03] res0 == nil && res1 == nil ==> t.eventDriven && !n.Atomic && old(L0(t, n)) != nil
+//@     && old(valueEq(Stored(t, n).Update[0].Val, n.Update[0].Val)) && LeafVal(old(L0(t, n))) == box(n)
+// C15: each submitted update is counted in at most one of stale / future / suppressed, exactly on that outcome;
+// the leaf counters move with the number of non-metadata leaves stored.
+//@   ensures [count-stale C15] Added(t, "targetLeavesStale") == ite(res1 == ErrStale, 1, 0)
+//@   ensures [count-future C15] Added(t, "targetLeavesFuture") == ite(res1 == ErrFuture, 1, 0)
+//@   ensures [count-suppressed C15] Added(t, "targetLeavesSuppressed") == ite(res0 == nil && res1 == nil, 1, 0)
+//@   ensures [count-leaves C15] Added(t, "targetLeaves") == treal[t.t] - old(treal[t.t]) && Added(t, "targetLeavesAdded") == treal[t.t] - old(treal[t.t])
+//@   ensures [count-others-untouched C15] Added(t, "targetLeavesUpdated") == 0 && Added(t, "targetLeavesEmpty") == 0 && Added(t, "targetLeavesDeleted") == 0
+
+// The delete notification announced for a removed leaf: a fresh message that
+// carries the stored notification's target/origin and path, built without
+// writing to anything that existed before (in particular not to the stored
+// notification's own path slices, which callers may share between messages).
+//@ func toDeleteNotification
+//@   props C03 C12
+//@   requires NotiWf(n) && len(n.Update) >= 1
+//@   ensures fresh(res0) && res0 != nil && res0.Timestamp == timestamp && res0.Prefix != nil && fresh(res0.Prefix)
+//@   ensures len(res0.Delete) == 1 && res0.Delete[0] != nil && len(res0.Update) == 0
+//@   ensures n.Prefix != nil ==> res0.Prefix.Target == n.Prefix.Target
+//@   ensures n.Prefix == nil ==> res0.Prefix.Target == ""
+
+// Index path addressed by a delete notification.
+//@ pred JPD(n *pb.Notification) := sub(idxpath(n.Prefix, true) ++ idxpath(n.Delete[0], false), 1, len(idxpath(n.Prefix, true)) + len(idxpath(n.Delete[0], false)))
+
+// The condition of a conditional delete: strictly older than the delete.
+//@ func (*Target).gnmiRemove$2
+//@   props C02 C12
+//@   pure
+//@   requires isa(v.(*pb.Notification)) && v.(*pb.Notification) != nil && n != nil
+//@   ensures res0 <==> v.(*pb.Notification).Timestamp < n.Timestamp
+
+// Collects one detached delete leaf per removed leaf.
+//@ func (*Target).gnmiRemove$1
+//@   props C03 C12 C15
+//@   requires isa(v.(*pb.Notification)) && NotiWf(v.(*pb.Notification)) && len(v.(*pb.Notification).Update) >= 1 && n != nil
+//@   modifies captured leaves, elems(leaves)
+//@   preserves len(leaves) - calls(self)
+//@   maintains forall i int :: 0 <= i && i < len(leaves) ==> leaves[i] != nil
+
+//@ func (*Target).gnmiRemove
+//@   props C02 C03 C12 C15
+//@   requires TargetWf(t) && NotiWf(n) && len(n.Delete) >= 1 && n.Prefix != nil && n.Prefix.Target != "" && StoredWf(t) && CountersRegistered()
+//@   modifies ghost tstore, ghost treal, ghost intAdded
+//@   effect owed := owed ++ view(res0)
+//@   effect delSteps := delSteps + 1
+//@   ensures [conditional-delete C02 C03] forall k PKey :: tstore[t.t][k] == ite(old(tstore[t.t][k]) != nil && pmatch(pkey(JPD(n)), k)
+//@     && old(LeafVal(tstore[t.t][k]).(*pb.Notification).Timestamp) < n.Timestamp, nil, old(tstore[t.t][k]))
+//@   ensures [leaf-values-untouched] forall r ref :: LeafVal(r) == old(LeafVal(r))
+//@   ensures [other-trees-kept] forall u ref :: u != t.t ==> tstore[u] == old(tstore[u]) && treal[u] == old(treal[u])
+//@   ensures [announce-each C03] forall i int :: 0 <= i && i < len(res0) ==> res0[i] != nil
+//@   ensures [count-leaves C15] Added(t, "targetLeaves") == treal[t.t] - old(treal[t.t]) && Added(t, "targetLeavesDeleted") == old(treal[t.t]) - treal[t.t]
+//@   ensures [stored-wf] StoredWf(t)
+
+// ---- the change feed protocol (C03) -------------------------------------
+// owed: the leaves that have been changed/removed in the tree and not yet
+// handed to the feed callback, in order. gnmiUpdate and gnmiRemove extend it,
+// the callback consumes its head. GnmiUpdate starts and ends with nothing owed:
+// every tree change is announced, with the changed leaf, in order, after the
+// tree was written, and nothing else is announced.
+//@ ghost owed seq[ref]
+// Number of single-update / single-delete steps applied to the tree (gnmiUpdate / gnmiRemove calls).
+//@ ghost updSteps int
+//@ ghost delSteps int
+
+// The registered update callback (Target.client / Cache.client). It is assumed
+// not to write cache state.
+//@ func field Target.client (l)
+//@   requires l != nil && len(owed) >= 1 && l == first(owed)
+//@   effect owed := sub(owed, 1, len(owed))
+//@   note the feed callback is assumed not to modify cache, tree or metadata state
+
+//@ func (*Target).checkTimestamp
+//@   props C15 C12
+//@   locks t
+//@   requires t != nil
+//@   modifies t.ts
+//@   effect tsSeen := upd(tsSeen, t, ite(tinst(ts) > tsSeen[t], tinst(ts), tsSeen[t]))
+//@   ensures [monotone] tinst(t.ts) == ite(tinst(ts) > old(tinst(t.ts)), tinst(ts), old(tinst(t.ts)))
+
+// tsSeen[t]: greatest instant this thread has passed to checkTimestamp for t.
+//@ ghost tsSeen gmap[ref]int
+//@ monitor Target.tsmu protects ts
+
+// The submitted message object is not one that a tree (or a detached leaf) already holds:
+// GnmiUpdate temporarily clears n.Update/n.Delete, which must not be visible through the cache.
+//@ pred Unstored(n *pb.Notification) := forall r ref :: LeafVal(r) != box(n)
+
+//@ pred InputsWf(updates []*pb.Update, deletes []*pb.Path) := allocated(updates) && allocated(deletes)
+//@   && (forall j int :: 0 <= j && j < len(updates) ==> UpdateWf(updates[j]))
+//@   && (forall j int :: 0 <= j && j < len(deletes) ==> deletes[j] != nil)
+// While announcing a batch of removed leaves: exactly the not yet announced tail is owed.
+//@ pred Owing(batch []*ctree.Leaf, i int) := 0 <= i && i <= len(batch) && owed == sub(view(batch), i, len(batch))
+//@   && (forall j int :: 0 <= j && j < len(batch) ==> batch[j] != nil)
+
+// The guard the code uses to decide whether a notification carries target (non-metadata) data.
+//@ pred GuardTS(n *pb.Notification) := len(n.Update) > 0 && n.Update[0].Path != nil && len(n.Update[0].Path.Elem) > 0
+//@   && (n.Update[0].Path.Elem[0] == nil || n.Update[0].Path.Elem[0].Name != "meta")
+//@ pred Single(n *pb.Notification) := !n.Atomic && len(n.Update) == 1 && len(n.Delete) == 0
+
+//@ func (*Target).GnmiUpdate
+//@   props C03 C12 C15 C02
+//@   requires TargetWf(t) && NotiWf(n) && n.Prefix != nil && n.Prefix.Target != "" && StoredWf(t) && CountersRegistered()
+//@   requires len(owed) == 0 && Unstored(n)
+//@   modifies ghost tstore, ghost treal, ghost intAdded, ghost owed, ghost tsSeen, ghost updSteps, ghost delSteps, heap(ctree.Tree.leafBranch), t.sync, t.ts, n.Update, n.Delete
+//@   invariant 0: len(owed) == 0 && StoredWf(t) && n.Update == nil && n.Delete == nil && InputsWf(updates, deletes)
+//@     && updates == old(n.Update) && deletes == old(n.Delete) && updSteps == old(updSteps) + $i && delSteps == old(delSteps) && 0 <= $i && $i <= len(updates)
+//@   invariant 1: len(owed) == 0 && StoredWf(t) && n.Update == nil && n.Delete == nil && InputsWf(updates, deletes)
+//@     && updates == old(n.Update) && deletes == old(n.Delete) && updSteps == old(updSteps) + len(updates) && delSteps == old(delSteps) + $i && 0 <= $i && $i <= len(deletes)
+//@   invariant 2: StoredWf(t) && n.Update == nil && n.Delete == nil && InputsWf(updates, deletes) && Owing($range, $i)
+//@     && updates == old(n.Update) && deletes == old(n.Delete) && updSteps == old(updSteps) + len(updates) && delSteps == old(delSteps) + $i1 + 1 && 0 <= $i1 && $i1 < len(deletes)
+//@   invariant 3: StoredWf(t) && Owing($range, $i) && updSteps == old(updSteps) && delSteps == old(delSteps) + 1
+//@   ensures [updates-then-deletes C03] !n.Atomic ==> updSteps == old(updSteps) + old(len(n.Update)) && delSteps == old(delSteps) + old(len(n.Delete))
+//@   ensures [atomic-is-one-step C03] n.Atomic && len(n.Delete) == 0 ==> updSteps == old(updSteps) + ite(len(n.Update) > 0, 1, 0) && delSteps == old(delSteps)
+//@   ensures [ts-advanced-on-accept C15] old(GuardTS(n)) && old(Single(n)) && res0 == nil ==> tsSeen[t] >= n.Timestamp
+//@   ensures [ts-untouched-on-reject C15 C02] old(Single(n)) && res0 != nil ==> tsSeen == old(tsSeen)
+//@   ensures [latest-timestamp-any-path C15] old(Single(n)) && old(Real(n)) && res0 == nil ==> tsSeen[t] >= n.Timestamp
+//@   ensures [all-announced C03] len(owed) == 0
+//@   ensures [input-restored C03] n.Update == old(n.Update) && n.Delete == old(n.Delete)
+//@   ensures [stored-wf] StoredWf(t)
